@@ -13,6 +13,8 @@ func (v *Value) UnmarshalNBT(tagType byte, r nbt.DecoderReader) error {
 	v.tag = tagType
 	var buf [8]byte
 	switch tagType {
+	default:
+		return fmt.Errorf("dynbt: unknown Tag %#02x", tagType)
 	case nbt.TagEnd:
 	case nbt.TagByte:
 		n, err := r.ReadByte()
@@ -82,6 +84,8 @@ func (v *Value) UnmarshalNBT(tagType byte, r nbt.DecoderReader) error {
 			return err
 		} else if length < 0 {
 			return errNegativeLength
+		} else if t > nbt.TagLongArray {
+			return fmt.Errorf("dynbt: unknown Tag %#02x", t)
 		}
 
 		v.list = v.list[:0]
